@@ -19,6 +19,261 @@ def wordBit (w : Nat) (i : Nat) : Bool := w.testBit i
 
 def wordAt (d : Bytes) (off : Nat) : Nat := (d.getD off 0).toNat + 256 * (d.getD (off + 1) 0).toNat
 
+open Pycomm.PyStr
+
+/-! ### helper lemmas -/
+
+theorem sub_pow_eq_xor : ∀ b < 16, 65535 - 2 ^ b = 65535 ^^^ 2 ^ b := by decide
+
+theorem decRevS_digit (n : Nat) : ∀ c ∈ decRevS n, isDigitC c = true := by
+  induction n using Nat.strongRecOn with
+  | _ n ih =>
+    intro c hc
+    rw [decRevS] at hc
+    split at hc
+    · simp at hc; subst hc; simp [isDigitC]; omega
+    · simp at hc
+      rcases hc with hc | hc
+      · subst hc; simp [isDigitC]; omega
+      · exact ih (n / 10) (by omega) c hc
+
+theorem decRevS_ne (n : Nat) : decRevS n ≠ [] := by
+  rw [decRevS]; split <;> simp
+
+theorem decRevS_val (n : Nat) : (decRevS n).foldr (fun c a => a * 10 + (c - 48)) 0 = n := by
+  induction n using Nat.strongRecOn with
+  | _ n ih =>
+    rw [decRevS]
+    split
+    · simp
+    · simp [ih (n / 10) (by omega)]; omega
+
+theorem decRevS_len (k : Nat) : ∀ n, n < 10 ^ (k + 1) → (decRevS n).length ≤ k + 1 := by
+  induction k with
+  | zero => intro n h; rw [decRevS]; simp at h; simp [h]
+  | succ k ih =>
+    intro n h
+    rw [decRevS]
+    split
+    · simp
+    · have : n / 10 < 10 ^ (k + 1) := by
+        rw [Nat.pow_succ] at h; omega
+      simp [ih _ this]
+
+theorem dec_digit (n : Nat) : ∀ c ∈ dec n, isDigitC c = true := by
+  intro c hc
+  exact decRevS_digit n c (by simpa [dec] using hc)
+
+theorem dec_ne (n : Nat) : dec n ≠ [] := by
+  simp [dec, decRevS_ne]
+
+theorem dec_val (n : Nat) : decVal (dec n) = n := by
+  rw [dec]
+  simp only [decVal, List.foldl_reverse]
+  exact decRevS_val n
+
+theorem dec_len (k n : Nat) (h : n < 10 ^ (k + 1)) : (dec n).length ≤ k + 1 := by
+  simpa [dec] using decRevS_len k n h
+
+/-- a non-empty string of at most `k` decimal digits -/
+structure Dig (k : Nat) (d : Name) : Prop where
+  dig : ∀ c ∈ d, isDigitC c = true
+  ne : d ≠ []
+  len : d.length ≤ k
+
+theorem dig_dec (k n : Nat) (h : n < 10 ^ (k + 1)) : Dig (k + 1) (dec n) :=
+  ⟨dec_digit n, dec_ne n, dec_len k n h⟩
+
+theorem takeWhile_dig {d rest : Name} (hd : ∀ c ∈ d, isDigitC c = true) (hr : rest.takeWhile isDigitC = []) :
+    (d ++ rest).takeWhile isDigitC = d := by
+  rw [List.takeWhile_append_of_pos hd, hr, List.append_nil]
+
+theorem digits_dig {k : Nat} {d rest : Name} (hd : Dig k d) (hr : rest.takeWhile isDigitC = []) :
+    digits k (d ++ rest) = some (d, rest) := by
+  unfold digits
+  simp only [takeWhile_dig hd.dig hr, List.take_of_length_le hd.len]
+  simp [hd.ne]
+
+theorem parseCT_none (c : Nat) (r : Name) (h1 : upperC c ≠ 67) (h2 : upperC c ≠ 84) : parseCT (c :: r) = none := by
+  simp [parseCT, h1, h2]
+
+theorem isLFBN_notCT {c : Nat} (hc : IsLFBN c) : upperC c ≠ 67 ∧ upperC c ≠ 84 := by
+  unfold IsLFBN at hc; omega
+
+theorem upperC_ne123 {c : Nat} (h : upperC c < 97) : c ≠ 123 := by
+  intro e; subst e; simp [upperC] at h
+
+theorem dig_ne123 {d : Name} (hd : ∀ c ∈ d, isDigitC c = true) : ∀ x ∈ d, x ≠ 123 := by
+  intro x hx e
+  have := hd x hx
+  subst e
+  simp [isDigitC] at this
+
+theorem find_none {t : Name} (h : ∀ x ∈ t, x ≠ 123) : find 123 t = none := by
+  have : t.takeWhile (· != 123) = t := by
+    have := List.takeWhile_append_of_pos (p := (· != 123)) (l₁ := t) (l₂ := [])
+      (by intro x hx; simpa using h x hx)
+    simpa using this
+  simp [find, this]
+
+theorem stripCount_no {t : Name} (h : ∀ x ∈ t, x ≠ 123) : stripCount t = t := by
+  simp [stripCount, find_none h]
+
+theorem stripCount_brace {t r : Name} (h : ∀ x ∈ t, x ≠ 123) : stripCount (t ++ 123 :: r) = t := by
+  have h1 : (t ++ 123 :: r).takeWhile (· != 123) = t := by
+    rw [List.takeWhile_append_of_pos (by intro x hx; simpa using h x hx)]
+    simp
+  simp [stripCount, find, h1]
+
+/-- general shape of an `Xf:e…` address -/
+theorem parseLFBN_shape (c : Nat) (hc : IsLFBN c) (df de r2 r3 : Name) (bit cnt : Option Nat)
+    (hdf : Dig 3 df) (hde : Dig 3 de)
+    (hr2 : r2.takeWhile isDigitC = []) (hbit : optBit r2 = some (bit, r3)) (hcnt : countToken r3 = some cnt) :
+    parseLFBN (c :: (df ++ 58 :: (de ++ r2))) =
+      some (if 1 ≤ decVal df ∧ decVal df ≤ 255 ∧ decVal de ≤ 255 ∧ (bit.getD 0) ≤ 15 then
+        some { fileType := [upperC c], fileNumber := decVal df, element := decVal de,
+               subElement := bit.getD 0, addressField := if bit.isSome then 3 else 2,
+               count := cnt.getD 1, tag := stripCount (c :: (df ++ 58 :: (de ++ r2))) }
+      else none) := by
+  have h1 : digits 3 (df ++ 58 :: (de ++ r2)) = some (df, 58 :: (de ++ r2)) :=
+    digits_dig hdf (by simp [isDigitC])
+  have h2 : digits 3 (de ++ r2) = some (de, r2) := digits_dig hde hr2
+  unfold IsLFBN at hc
+  simp only [parseLFBN, hc, h1, h2, hbit, hcnt, if_true]
+
+theorem parseTag_LFBN (c : Nat) (hc : IsLFBN c) (r : Name) (res : Option Addr)
+    (h : parseLFBN (c :: r) = some res) : parseTag (c :: r) = res := by
+  have := isLFBN_notCT hc
+  simp [parseTag, parseCT_none c r this.1 this.2, h]
+
+theorem isLFBN_ne123 {c : Nat} (hc : IsLFBN c) : c ≠ 123 :=
+  upperC_ne123 (by unfold IsLFBN at hc; omega)
+
+theorem ne123_word {c f e : Nat} (hc : c ≠ 123) : ∀ x ∈ c :: (dec f ++ 58 :: dec e), x ≠ 123 := by
+  intro x hx
+  simp only [List.mem_cons, List.mem_append] at hx
+  rcases hx with rfl | hx | rfl | hx
+  · exact hc
+  · exact dig_ne123 (dec_digit f) x hx
+  · decide
+  · exact dig_ne123 (dec_digit e) x hx
+
+theorem optBit_dig {d rest : Name} (hd : Dig 2 d) (hr : rest.takeWhile isDigitC = []) :
+    optBit (47 :: (d ++ rest)) = some (some (decVal d), rest) := by
+  simp [optBit, digits_dig hd hr]
+
+theorem countToken_dig {d : Name} (hd : ∀ c ∈ d, isDigitC c = true) (hne : d ≠ []) :
+    countToken (123 :: (d ++ [125])) = some (some (decVal d)) := by
+  have : List.takeWhile isDigitC (d ++ [125]) = d := takeWhile_dig hd (by simp [isDigitC])
+  simp [countToken, this, hne]
+
+theorem parseLFBN_slash (c : Nat) (df r : Name) (hdf : Dig 3 df) : parseLFBN (c :: (df ++ 47 :: r)) = none := by
+  have h1 : digits 3 (df ++ 47 :: r) = some (df, 47 :: r) := digits_dig hdf (by simp [isDigitC])
+  simp only [parseLFBN, h1]
+  split <;> rfl
+
+theorem parseIO_none (c : Nat) (r : Name) (h1 : upperC c ≠ 73) (h2 : upperC c ≠ 79) : parseIO (c :: r) = none := by
+  simp [parseIO, h1, h2]
+
+theorem parseS_none (c : Nat) (r : Name) (h1 : upperC c ≠ 83) : parseS (c :: r) = none := by
+  unfold parseS
+  split
+  · rename_i t r1 heq
+    injection heq with h _
+    subst h
+    simp [h1]
+  · rfl
+
+theorem parseB_shape (c : Nat) (hc : upperC c = 66) (df dn : Name) (hdf : Dig 3 df) (hdn : Dig 4 dn) :
+    parseB (c :: (df ++ 47 :: (dn ++ []))) =
+      if 1 ≤ decVal df ∧ decVal df ≤ 255 ∧ decVal dn ≤ 4095 then
+        some { fileType := [66], fileNumber := decVal df, element := decVal dn / 16, subElement := decVal dn % 16,
+               addressField := 3, count := 1, tag := stripCount (c :: (df ++ 47 :: (dn ++ []))) }
+      else none := by
+  have h1 : digits 3 (df ++ 47 :: (dn ++ [])) = some (df, 47 :: (dn ++ [])) := digits_dig hdf (by simp [isDigitC])
+  have h2 : digits 4 (dn ++ []) = some (dn, []) := digits_dig hdn rfl
+  simp only [parseB, hc, h1, h2, countToken, if_true, Option.getD_none]
+
+theorem parseTag_B (c : Nat) (hc : upperC c = 66) (df r : Name) (hdf : Dig 3 df) :
+    parseTag (c :: (df ++ 47 :: r)) = parseB (c :: (df ++ 47 :: r)) := by
+  simp only [parseTag, parseCT_none c _ (by omega) (by omega), parseLFBN_slash c df r hdf,
+    parseIO_none c _ (by omega) (by omega), parseS_none c _ (by omega)]
+
+theorem parseLFBN_none (c : Nat) (r : Name) (h : ¬ IsLFBN c) : parseLFBN (c :: r) = none := by
+  unfold IsLFBN at h
+  simp only [parseLFBN, h, if_false]
+
+theorem parseB_none (c : Nat) (r : Name) (h : upperC c ≠ 66) : parseB (c :: r) = none := by
+  simp only [parseB, h, if_false]
+
+theorem word_full (o : Nat) (d1 d2 : UInt8) :
+    let n := (o &&& (65535 - 65535)) ||| ((d1.toNat + 256 * d2.toNat) &&& 65535)
+    UInt8.ofNat (n % 256) = d1 ∧ UInt8.ofNat (n / 256) = d2 := by
+  have h1 := d1.toNat_lt
+  have h2 := d2.toNat_lt
+  have e : (65535 : Nat) = 2 ^ 16 - 1 := by decide
+  have hn : ((o &&& (65535 - 65535)) ||| ((d1.toNat + 256 * d2.toNat) &&& 65535)) = d1.toNat + 256 * d2.toNat := by
+    rw [Nat.sub_self, Nat.and_zero, Nat.zero_or, e, Nat.and_two_pow_sub_one_eq_mod]
+    omega
+  simp only [hn]
+  have a : (d1.toNat + 256 * d2.toNat) % 256 = d1.toNat := by omega
+  have b : (d1.toNat + 256 * d2.toNat) / 256 = d2.toNat := by omega
+  rw [a, b]
+  simp
+
+theorem maskWords_full : ∀ (n : Nat) (old data : Bytes), data.length = 2 * n → old.length = data.length →
+    maskWords 65535 old data = data := by
+  intro n
+  induction n with
+  | zero =>
+    intro old data h _
+    have : data = [] := List.length_eq_zero_iff.mp (by omega)
+    subst this
+    cases old with
+    | nil => simp [maskWords]
+    | cons a t => cases t <;> simp [maskWords]
+  | succ n ih =>
+    intro old data h ho
+    match data, old, h, ho with
+    | d1 :: d2 :: dat, o1 :: o2 :: old, h, ho =>
+      simp only [List.length_cons] at h ho
+      have := word_full (o1.toNat + 256 * o2.toNat) d1 d2
+      simp only at this
+      simp only [maskWords, this.1, this.2, ih old dat (by omega) (by omega)]
+    | [], _, h, _ => simp at h
+    | [_], _, h, _ => simp at h; omega
+    | _ :: _ :: _, [], _, ho => simp at ho
+    | _ :: _ :: _, [_], _, ho => simp at ho
+
+theorem find_map_num (tbl : Table) (fnum : Nat) (F : SlcFile → SlcFile) (hF : ∀ g, (F g).num = g.num) :
+    (tbl.map F).find? (fun f => f.num == fnum) = (tbl.find? (fun f => f.num == fnum)).map F := by
+  rw [List.find?_map]
+  have : ((fun f : SlcFile => f.num == fnum) ∘ F) = (fun f => f.num == fnum) := by
+    funext g
+    simp [hF]
+  rw [this]
+
+
+theorem maskWords_length (mask : Nat) : ∀ (n : Nat) (old data : Bytes), data.length = 2 * n → old.length = data.length →
+    (maskWords mask old data).length = data.length := by
+  intro n
+  induction n with
+  | zero => intro old data hd ho; cases data with
+            | nil => cases old <;> simp_all [maskWords]
+            | cons a t => simp at hd
+  | succ n ih =>
+    intro old data hd ho
+    match old, data, hd, ho with
+    | o1 :: o2 :: old, d1 :: d2 :: dat, hd, ho =>
+      simp only [List.length_cons] at hd ho
+      simp only [maskWords, List.length_cons, ih old dat (by omega) (by omega)]
+    | [], _ :: _, _, ho => simp at ho
+    | [_], [_], hd, _ => simp at hd; omega
+    | [_], _ :: _ :: _, _, ho => simp at ho
+    | _ :: _ :: _, [_], hd, _ => simp at hd; omega
+    | _ :: _, [], hd, _ => simp at hd
+    | [], [], hd, _ => simp at hd
+
 -- PROPERTY THEOREMS
 
 /-- word form `Xf:e` (integer, binary, float, long files; upper or lower case letter): exactly that file
@@ -27,59 +282,146 @@ theorem parse_word (c f e : Nat) (hc : IsLFBN c) (hf : 1 ≤ f ∧ f ≤ 255) (h
     parseTag ([c] ++ dec f ++ [58] ++ dec e) =
       some { fileType := [upperC c], fileNumber := f, element := e, subElement := 0, addressField := 2, count := 1,
              tag := [c] ++ dec f ++ [58] ++ dec e } := by
-  sorry
+  have e1 : [c] ++ dec f ++ [58] ++ dec e = c :: (dec f ++ 58 :: (dec e ++ [])) := by simp
+  rw [e1]
+  rw [parseTag_LFBN c hc _ _ (parseLFBN_shape c hc (dec f) (dec e) [] [] none none
+    (dig_dec 2 f (by omega)) (dig_dec 2 e (by omega)) rfl rfl rfl)]
+  simp only [dec_val, List.append_nil, stripCount_no (ne123_word (isLFBN_ne123 hc))]
+  simp [hf, he]
 
 /-- bit form `Xf:e/b` -/
 theorem parse_bit (c f e b : Nat) (hc : IsLFBN c) (hf : 1 ≤ f ∧ f ≤ 255) (he : e ≤ 255) (hb : b ≤ 15) :
     parseTag ([c] ++ dec f ++ [58] ++ dec e ++ [47] ++ dec b) =
       some { fileType := [upperC c], fileNumber := f, element := e, subElement := b, addressField := 3, count := 1,
              tag := [c] ++ dec f ++ [58] ++ dec e ++ [47] ++ dec b } := by
-  sorry
+  have e1 : [c] ++ dec f ++ [58] ++ dec e ++ [47] ++ dec b = c :: (dec f ++ 58 :: (dec e ++ 47 :: (dec b ++ []))) := by simp
+  rw [e1]
+  rw [parseTag_LFBN c hc _ _ (parseLFBN_shape c hc (dec f) (dec e) _ [] _ none
+    (dig_dec 2 f (by omega)) (dig_dec 2 e (by omega)) (by simp [isDigitC])
+    (optBit_dig (dig_dec 1 b (by omega)) rfl) rfl)]
+  have h123 : ∀ x ∈ c :: (dec f ++ 58 :: (dec e ++ 47 :: (dec b ++ []))), x ≠ 123 := by
+    intro x hx
+    simp only [List.mem_cons, List.mem_append, List.append_nil] at hx
+    rcases hx with rfl | hx | rfl | hx | rfl | hx
+    · exact isLFBN_ne123 hc
+    · exact dig_ne123 (dec_digit f) x hx
+    · decide
+    · exact dig_ne123 (dec_digit e) x hx
+    · decide
+    · exact dig_ne123 (dec_digit b) x hx
+  simp only [dec_val, stripCount_no h123]
+  simp [hf, he, hb]
 
 /-- `{count}` form covers exactly that many consecutive elements starting at e -/
 theorem parse_count (c f e n : Nat) (hc : IsLFBN c) (hf : 1 ≤ f ∧ f ≤ 255) (he : e ≤ 255) :
     parseTag ([c] ++ dec f ++ [58] ++ dec e ++ [123] ++ dec n ++ [125]) =
       some { fileType := [upperC c], fileNumber := f, element := e, subElement := 0, addressField := 2, count := n,
              tag := [c] ++ dec f ++ [58] ++ dec e } := by
-  sorry
+  have e1 : [c] ++ dec f ++ [58] ++ dec e ++ [123] ++ dec n ++ [125]
+      = c :: (dec f ++ 58 :: (dec e ++ 123 :: (dec n ++ [125]))) := by simp
+  rw [e1]
+  rw [parseTag_LFBN c hc _ _ (parseLFBN_shape c hc (dec f) (dec e) _ _ none _
+    (dig_dec 2 f (by omega)) (dig_dec 2 e (by omega)) (by simp [isDigitC])
+    rfl (countToken_dig (dec_digit n) (dec_ne n)))]
+  have e2 : c :: (dec f ++ 58 :: (dec e ++ 123 :: (dec n ++ [125])))
+      = (c :: (dec f ++ 58 :: dec e)) ++ 123 :: (dec n ++ [125]) := by simp
+  rw [e2, stripCount_brace (ne123_word (isLFBN_ne123 hc))]
+  simp [dec_val, hf, he]
 
 /-- binary-file bit form `Bf/n`: element n div 16, bit n mod 16 -/
 theorem parse_binary_bit (c f n : Nat) (hc : upperC c = 66) (hf : 1 ≤ f ∧ f ≤ 255) (hn : n ≤ 4095) :
     parseTag ([c] ++ dec f ++ [47] ++ dec n) =
       some { fileType := [66], fileNumber := f, element := n / 16, subElement := n % 16, addressField := 3, count := 1,
              tag := [c] ++ dec f ++ [47] ++ dec n } := by
-  sorry
+  have e1 : [c] ++ dec f ++ [47] ++ dec n = c :: (dec f ++ 47 :: (dec n ++ [])) := by simp
+  rw [e1, parseTag_B c hc _ _ (dig_dec 2 f (by omega)),
+    parseB_shape c hc _ _ (dig_dec 2 f (by omega)) (dig_dec 3 n (by omega))]
+  have h123 : ∀ x ∈ c :: (dec f ++ 47 :: (dec n ++ [])), x ≠ 123 := by
+    intro x hx
+    simp only [List.mem_cons, List.mem_append, List.append_nil] at hx
+    rcases hx with rfl | hx | rfl | hx
+    · exact upperC_ne123 (by omega)
+    · exact dig_ne123 (dec_digit f) x hx
+    · decide
+    · exact dig_ne123 (dec_digit n) x hx
+  simp only [dec_val, stripCount_no h123]
+  simp [hf, hn]
 
 /-- out-of-range file, element or bit numbers are rejected (parse_tag returns None → RequestError),
     for every number that the pattern's digit count admits -/
 theorem reject_out_of_range (c f e : Nat) (hc : IsLFBN c) (hf : f ≤ 999) (he : e ≤ 999)
     (hbad : f = 0 ∨ 256 ≤ f ∨ 256 ≤ e) :
     parseTag ([c] ++ dec f ++ [58] ++ dec e) = none := by
-  sorry
+  have e1 : [c] ++ dec f ++ [58] ++ dec e = c :: (dec f ++ 58 :: (dec e ++ [])) := by simp
+  rw [e1]
+  rw [parseTag_LFBN c hc _ _ (parseLFBN_shape c hc (dec f) (dec e) [] [] none none
+    (dig_dec 2 f (by omega)) (dig_dec 2 e (by omega)) rfl rfl rfl)]
+  simp only [dec_val]
+  rw [if_neg (by omega)]
 
 theorem reject_bit_out_of_range (c f e b : Nat) (hc : IsLFBN c) (hf : 1 ≤ f ∧ f ≤ 255) (he : e ≤ 255) (hb : 16 ≤ b ∧ b ≤ 99) :
     parseTag ([c] ++ dec f ++ [58] ++ dec e ++ [47] ++ dec b) = none := by
-  sorry
+  have e1 : [c] ++ dec f ++ [58] ++ dec e ++ [47] ++ dec b = c :: (dec f ++ 58 :: (dec e ++ 47 :: (dec b ++ []))) := by simp
+  rw [e1]
+  rw [parseTag_LFBN c hc _ _ (parseLFBN_shape c hc (dec f) (dec e) _ [] _ none
+    (dig_dec 2 f (by omega)) (dig_dec 2 e (by omega)) (by simp [isDigitC])
+    (optBit_dig (dig_dec 1 b (by omega)) rfl) rfl)]
+  simp only [dec_val, Option.getD_some]
+  rw [if_neg (by omega)]
 
 theorem reject_binary_bit_out_of_range (c f n : Nat) (hc : upperC c = 66) (hf : 1 ≤ f ∧ f ≤ 255) (hn : 4096 ≤ n ∧ n ≤ 9999) :
     parseTag ([c] ++ dec f ++ [47] ++ dec n) = none := by
-  sorry
+  have e1 : [c] ++ dec f ++ [47] ++ dec n = c :: (dec f ++ 47 :: (dec n ++ [])) := by simp
+  rw [e1, parseTag_B c hc _ _ (dig_dec 2 f (by omega)),
+    parseB_shape c hc _ _ (dig_dec 2 f (by omega)) (dig_dec 3 n (by omega))]
+  simp only [dec_val]
+  rw [if_neg (by omega)]
 
 /-- an unsupported file-type letter is rejected whatever follows -/
 theorem reject_unknown_type (c : Nat) (rest : Name)
     (hc : ∀ x ∈ [67, 84, 76, 70, 66, 78, 73, 79, 83], upperC c ≠ x) : parseTag (c :: rest) = none := by
-  sorry
+  simp only [List.mem_cons, List.not_mem_nil, or_false, forall_eq_or_imp, forall_eq] at hc
+  obtain ⟨h67, h84, h76, h70, h66, h78, h73, h79, h83⟩ := hc
+  simp only [parseTag, parseCT_none c _ h67 h84, parseLFBN_none c _ (by unfold IsLFBN; omega),
+    parseIO_none c _ h73 h79, parseS_none c _ h83, parseB_none c _ h66]
 
 /-- a bit write sends mask 2^b and data 2^b or 0 (two bytes each), announcing 2 data bytes -/
 theorem bit_write_value (a : Addr) (v : PyVal) (hb : a.addressField = 3) (hc : a.count = 1)
     (hs : a.subElement ≤ 15) (hct : a.fileType ≠ [84] ∧ a.fileType ≠ [67]) (ht : (elemTy a.fileType).isSome) :
     writeableValue a v = .ok (leBytes 2 (2 ^ a.subElement) ++ (if v.truthy then leBytes 2 (2 ^ a.subElement) else [0, 0]), 2) := by
-  sorry
+  obtain ⟨ty, hty⟩ := Option.isSome_iff_exists.mp ht
+  have hp : (2:Nat) ^ a.subElement ≤ 2 ^ 15 := Nat.pow_le_pow_right (by decide) hs
+  have hpk : packInt .uint (.int ((2:Nat) ^ a.subElement : Nat)) = .ok (leBytes 2 (2 ^ a.subElement)) := by
+    have h1 : (0:Int) ≤ (2:Int) ^ a.subElement := by
+      have : (0:Int) ≤ ((2 ^ a.subElement : Nat) : Int) := Int.natCast_nonneg _
+      simpa using this
+    have h2 : (2:Int) ^ a.subElement ≤ 65535 := by
+      have : ((2 ^ a.subElement : Nat) : Int) ≤ 65535 := by omega
+      simpa using this
+    have h3 : ((2:Int) ^ a.subElement).toNat = 2 ^ a.subElement := by
+      have : (((2 ^ a.subElement : Nat) : Int)).toNat = 2 ^ a.subElement := Int.toNat_natCast _
+      simpa using this
+    simp only [packInt, PyVal.asIndex, IntK.lo, IntK.hi, IntK.signed, IntK.size, ofSigned]
+    simp [h1, h2, h3]
+  unfold writeableValue
+  simp only [hty, hc, hb, hct.1, hct.2]
+  simp
+  have := hpk
+  simp at this
+  rw [this]
 
 /-- the masked write of the reference target with mask 2^b changes only bit b of the addressed word -/
 theorem mask_word_bit (old dat b i : Nat) (ho : old < 65536) (hd : dat < 65536) (hb : b < 16) (hi : i < 16) :
     (((old &&& (65535 - 2 ^ b)) ||| (dat &&& 2 ^ b)).testBit i) = (if i = b then dat.testBit b else old.testBit i) := by
-  sorry
+  have _ := ho; have _ := hd   -- the bounds on the words are not needed
+  rw [sub_pow_eq_xor b hb]
+  have h65 : (65535 : Nat) = 2 ^ 16 - 1 := by decide
+  rw [Nat.testBit_or, Nat.testBit_and, Nat.testBit_and, Nat.testBit_xor, h65, Nat.testBit_two_pow_sub_one,
+    Nat.testBit_two_pow]
+  by_cases h : i = b
+  · subst h; simp [hi]
+  · have h' : ¬ b = i := fun e => h e.symm
+    simp [h, h', hi]
 
 /-- write then read: a full-mask write of `data` to an existing location is what a read of the same
     location returns, and nothing outside the addressed bytes of that file changes -/
@@ -88,6 +430,100 @@ theorem write_then_read (tbl : Table) (size fnum ftype elem sub : Nat) (data : B
     (h : maskedWrite tbl size fnum ftype elem sub 65535 data = .ok tbl') :
     typedRead tbl' size fnum ftype elem sub = .ok data ∧
     ∀ f ∈ tbl, f.num ≠ fnum → f ∈ tbl' := by
-  sorry
+  have _ := hu   -- uniqueness of the file number is not needed: `find?` picks the first match in both tables
+  unfold maskedWrite at h
+  split at h
+  · cases h
+  · rename_i f hfind
+    split at h
+    · cases h
+    · rename_i hty
+      split at h
+      · cases h
+      · rename_i hsz
+        simp only at h
+        split at h
+        · cases h
+        · rename_i hoff
+          injection h with h
+          generalize hoffv : byteOffset ftype elem sub = off at h hoff
+          have hdl : data.length = size := by omega
+          have hold : (List.take size (List.drop off f.data)).length = data.length := by
+            simp only [List.length_take, List.length_drop]; omega
+          have hmw : maskWords 65535 (List.take size (List.drop off f.data)) data = data :=
+            maskWords_full (size / 2) _ _ (by omega) hold
+          rw [hmw] at h
+          have hfn : f.num = fnum := by
+            have := List.find?_some hfind
+            simpa using this
+          subst h
+          constructor
+          · unfold typedRead
+            rw [find_map_num tbl fnum _ (by intro g; split <;> rfl), hfind]
+            have hty' : f.ftype = ftype := by simpa using hty
+            simp only [Option.map_some, hfn, beq_self_eq_true, if_true, hty', ne_eq, not_true_eq_false, if_false]
+            rw [if_neg (by omega), hoffv]
+            have hlen : (List.take off f.data).length = off := by
+              simp only [List.length_take]; omega
+            rw [if_neg (by simp only [List.length_append, hlen, List.length_drop]; omega)]
+            congr 1
+            rw [List.append_assoc, List.drop_left' hlen, ← hdl, List.take_left]
+          · intro g hg hne
+            refine List.mem_map.mpr ⟨g, hg, ?_⟩
+            simp [hne]
+
+/-- frame (any mask): a masked write keeps every file's number, type and data length, leaves every file with another
+    number untouched, and in the addressed file changes nothing outside the addressed bytes -/
+theorem write_frame (tbl : Table) (size fnum ftype elem sub mask : Nat) (data : Bytes) (tbl' : Table)
+    (h : maskedWrite tbl size fnum ftype elem sub mask data = .ok tbl') :
+    tbl'.length = tbl.length ∧
+    ∀ (i : Nat) (f : SlcFile), tbl[i]? = some f → ∃ g, tbl'[i]? = some g ∧ g.num = f.num ∧ g.ftype = f.ftype ∧
+      (f.num ≠ fnum → g = f) ∧
+      (tbl.find? (fun x => x.num == fnum) = some f →
+        g.data.length = f.data.length ∧
+        ∀ j, (j < byteOffset ftype elem sub ∨ byteOffset ftype elem sub + size ≤ j) → g.data[j]? = f.data[j]?) := by
+  unfold maskedWrite at h
+  split at h
+  · cases h
+  · rename_i f0 hfind
+    split at h
+    · cases h
+    · split at h
+      · cases h
+      · rename_i hsz
+        simp only at h
+        split at h
+        · cases h
+        · rename_i hoff
+          injection h with h
+          generalize byteOffset ftype elem sub = off at h hoff ⊢
+          have hdl : data.length = size := by omega
+          have hold : (List.take size (List.drop off f0.data)).length = data.length := by
+            simp only [List.length_take, List.length_drop]; omega
+          have hml := maskWords_length mask (size / 2) _ data (by omega) hold
+          subst h
+          refine ⟨by simp, ?_⟩
+          intro i f hi
+          simp only [List.getElem?_map, hi, Option.map_some]
+          refine ⟨_, rfl, ?_, ?_, ?_, ?_⟩
+          · split <;> rfl
+          · split <;> rfl
+          · intro hne; simp [hne]
+          · intro hf
+            rw [hfind] at hf
+            injection hf with hf
+            subst hf
+            have hfn : f0.num = fnum := by
+              have := List.find?_some hfind
+              simpa using this
+            simp only [hfn, beq_self_eq_true, if_true]
+            have hlt : (List.take off f0.data).length = off := by simp only [List.length_take]; omega
+            refine ⟨by simp only [List.length_append, hlt, hml, List.length_drop]; omega, ?_⟩
+            intro j hj
+            rcases hj with hj | hj
+            · rw [List.append_assoc, List.getElem?_append_left (by omega), List.getElem?_take_of_lt hj]
+            · rw [List.getElem?_append_right (by simp only [List.length_append, hlt, hml]; omega)]
+              simp only [List.length_append, hlt, hml, List.getElem?_drop]
+              congr 1; omega
 
 end Pycomm.Slc
